@@ -306,6 +306,10 @@ def run(ctx):
             ("oversized_struct_array_in_include", [F("main.idl", ["inc.idl"], [("iface", "IMain", None, [("method", "f", [("out", "L3", "[]", "v")], False, None)])]),
                                                    F("inc.idl", [], [("struct", "L0", [("uint64", 65535, "a")])] +
                                                      [("struct", "L%d" % i, [("L%d" % (i - 1), 65535, "a")]) for i in range(1, 4)])]),
+            # every member fits, their sum does not
+            ("oversized_struct_sum_in_include", [F("main.idl", ["inc.idl"], [("iface", "IMain", None, [("method", "f", [("in", "H", None, "v")], False, None)])]),
+                                                 F("inc.idl", [], [("struct", "L0", [("uint64", 65535, "a")]), ("struct", "L1", [("L0", 65535, "a")]), ("struct", "L2", [("L1", 65535, "a")]),
+                                                                   ("struct", "H", [("L2", 4097, "a"), ("L2", 4096, "b")])])]),
             ("duplicate_across_includes", [F("main.idl", ["a.idl", "b.idl"], [I("IMain")]), F("a.idl", [], [S("Same")]), F("b.idl", [], [S("Same")])]),
         ]
         for tag_, files_ in refuse_sets:
